@@ -180,8 +180,12 @@ def _wrapper(ctx):
     except AnalysisError as e:
         ctx.error('C09.D1', str(e))
     # version sniffing
-    texts = [norm(x).split('\n')[0] for x in ast.walk(tr) if isinstance(x, (ast.Assign, ast.If))]
-    if 'ver_match = VERSION_RE.match(grid_data)' in texts and 'if ver_match is None:' in texts:
+    sniff = [x for x in ast.walk(tr) if isinstance(x, ast.Assign) and len(x.targets) == 1 and isinstance(x.targets[0], ast.Name)
+             and norm(x.value).startswith('VERSION_RE.match(')]
+    guard = [x for x in ast.walk(tr) if isinstance(x, ast.If) and sniff
+             and norm(x.test) in ('%s is None' % sniff[0].targets[0].id, 'not %s' % sniff[0].targets[0].id)
+             and x.body and isinstance(x.body[0], ast.Raise)]
+    if sniff and guard:
         ctx.ob('C09.D1', 'a text without a version header is refused inside the try', True, where)
     else:
         ctx.error('C09.D1', 'version sniffing statements not recognised')
